@@ -194,6 +194,9 @@ def check(rep, cases, wd, confirm=True):
     for cs in cases:
         evs = by.get(cs["id"], [])
         if not evs:
+            if "_skipped" in by:
+                per[cs["id"]] = []
+                continue
             raise Infra("case %s produced no events" % cs["id"])
         per[cs["id"]] = project(cs, evs)
         for ln, raw in per[cs["id"]]:
